@@ -256,3 +256,17 @@ Definition parse_key2 (key : String.string) : String.string * String.string * St
 (* ---- optional key sort_t of to_dict / save_npz: present only when the flag differs from the class default *)
 Definition opt_flag_save (default v : bool) : option bool := if Bool.eqb v default then None else Some v.
 Definition opt_flag_load (default : bool) (o : option bool) : bool := match o with Some v => v | None => default end.
+
+(* ---- Python dictionaries as association lists; {**a, **b} *)
+Fixpoint dict_set {V} (k : String.string) (v : V) (d : list (String.string * V)) : list (String.string * V) :=
+  match d with
+  | [] => [(k, v)]
+  | (k', v') :: d' => if String.eqb k k' then (k, v) :: d' else (k', v') :: dict_set k v d'
+  end.
+Definition dict_merge {V} (a b : list (String.string * V)) : list (String.string * V) :=
+  fold_left (fun acc kv => dict_set (fst kv) (snd kv) acc) b a.
+(* to_meshio: X = {**({} if X is None else X), **encoder()} if the flag is set, X as given otherwise *)
+Definition data_option {V} (flag : bool) (user : option (list (String.string * V))) (enc : list (String.string * V))
+  : option (list (String.string * V)) :=
+  if flag then Some (dict_merge (match user with Some d => d | None => [] end) enc) else user.
+
